@@ -451,7 +451,12 @@ class Emitter:
             lines += self._ctor_inits(decl, rec)
         body = body_of(decl)
         if body is not None:
-            for s in body.get("inner", []):
+            stmts = body.get("inner", [])
+            for si, s in enumerate(stmts):
+                if si == len(stmts) - 1 and s.get("kind") == "ReturnStmt":
+                    g = self.ghost("before_return", "last", 1)
+                    if g:
+                        lines.append(g)
                 lines.append(self.stmt(s, 1))
         if decl.get("kind") == "CXXConstructorDecl":
             lines.append("  return xc_self;")
@@ -803,10 +808,14 @@ class Emitter:
                     out.append(self.unrolled(pad, len(listed), vt.dims[0], name + "[%(i)d] = " + filler.replace("%", "%%") + ";"))
                 return "\n".join(out)
             if s.get("kind") == "CXXConstructExpr":
-                # array of class objects default-constructed
-                elem = CT(vt.base, vt.ptr)
-                one = self.construct(s.get("inner", [{}])[0] if s.get("inner") else s, [], s) if False else None
-                ctor = self._default_ctor_expr(s)
+                # array of class objects default-constructed: the construct expression has the array type
+                s2 = dict(s)
+                et = dict(s["type"])
+                for key in ("qualType", "desugaredQualType"):
+                    if key in et:
+                        et[key] = re.sub(r"\s*\[\d+\]$", "", et[key])
+                s2["type"] = et
+                ctor = self._default_ctor_expr(s2)
                 return pad + st + vt.decl(name) + ";\n" + self.unrolled(pad, 0, vt.dims[0], name + "[%(i)d] = " + ctor.replace("%", "%%") + ";")
             raise ExtractionError("unsupported array initialiser for %s: %s" % (name, s.get("kind")))
         special = self.special_vardecl(v, vt, i0, ind)
@@ -1202,6 +1211,7 @@ class Emitter:
         ps = params_of(callee_decl) if callee_decl is not None else []
         for i, a in enumerate(args):
             p = ps[i] if i < len(ps) else None
+            a = self._default_arg(a, p)
             if p is not None:
                 pt = self.ctype(p["type"])
                 if pt.is_ref and not self._byvalue_ref(pt):
@@ -1209,6 +1219,15 @@ class Emitter:
                     continue
             out.append(self.expr(a))
         return out
+
+    def _default_arg(self, a, p):
+        if a.get("kind") == "CXXDefaultArgExpr" and not a.get("inner") and p is not None:
+            dflt = [c for c in p.get("inner", []) if isinstance(c, dict) and c.get("kind") and not c["kind"].endswith("Attr")]
+            if not dflt:
+                raise ExtractionError("default argument of %s not found" % p.get("name"))
+            self.report["default arguments materialised from the callee declaration"] += 1
+            return dflt[0]
+        return a
 
     def addr_of(self, a, pt=None):
         s = self._strip(a)
